@@ -891,9 +891,10 @@ def explain_vars(fn):
                 if heap:
                     # no effect between the definition and the last statement that uses v; uses inside loops are excluded
                     last = max(k for k, r in enumerate(rest) if any(_contains(r, u) for u in uses))
+                    chain = _attr_chain(s.value)
                     for k, r in enumerate(rest[: last + 1]):
                         uses_here = [u for u in uses if _contains(r, u)]
-                        if k < last and _effectful(r):
+                        if k < last and _effectful(r) and not (chain and _only_touches_alias(r, v, chain)):
                             ok = False
                         if uses_here and isinstance(r, (ast.For, ast.While, ast.Try, ast.With)):
                             ok = False
@@ -917,6 +918,34 @@ def explain_vars(fn):
             if changed:
                 break
     return fn
+
+
+def _attr_chain(e):
+    """['self', 'a', 'b'] for self.a.b (a chain of plain attribute reads), else None"""
+    parts = []
+    while isinstance(e, ast.Attribute):
+        parts.append(e.attr)
+        e = e.value
+    if isinstance(e, ast.Name) and parts:
+        return [e.id] + parts[::-1]
+    return None
+
+
+def _only_touches_alias(stmt, v, chain):
+    """the statement's effects are method calls on the alias `v` itself (they change the object, not which object the
+    attribute chain names) and stores to other attributes"""
+    for n in _walk_same_function(stmt):
+        if isinstance(n, ast.Call) and not (isinstance(n.func, ast.Name) and n.func.id in PURE_CALLS):
+            f = n.func
+            if not (isinstance(f, ast.Attribute) and isinstance(f.value, ast.Name) and f.value.id == v):
+                return False
+        if isinstance(n, ast.Attribute) and isinstance(n.ctx, (ast.Store, ast.Del)) and n.attr == chain[-1]:
+            return False
+        if isinstance(n, ast.Name) and isinstance(n.ctx, ast.Store) and n.id == chain[0]:
+            return False
+        if isinstance(n, (ast.Yield, ast.YieldFrom)):
+            return False
+    return True
 
 
 def _contains(root, node):
@@ -1020,6 +1049,17 @@ def _shared_tail_return(stmts):
                 if body and not (names & assigned) and not any(isinstance(n, ast.Return) for b in body for n in _walk_same_function(b)):
                     new = ast.If(test=_negate(s.test), body=body, orelse=[])
                     return out[:i] + [ast.fix_missing_locations(ast.copy_location(new, s)), last]
+    return out
+
+
+def _positive_guard(stmts):
+    """if not c: <B, leaves>    <A, leaves>   ->   if c: <A>    <B>     (two alternatives that both leave: the positive test comes first)"""
+    out = list(stmts)
+    for i, s in enumerate(out):
+        if isinstance(s, ast.If) and not s.orelse and isinstance(s.test, ast.UnaryOp) and isinstance(s.test.op, ast.Not) and _exits(s.body) and out[i + 1:] and _exits(out[i + 1:]):
+            rest = out[i + 1:]
+            new = ast.If(test=s.test.operand, body=_positive_guard(rest), orelse=[])
+            return out[:i] + [ast.fix_missing_locations(ast.copy_location(new, s))] + s.body
     return out
 
 
@@ -1241,6 +1281,7 @@ def canon_flow_list(stmts, pattern=False, tail=True):
                     s.body, s.orelse = s.orelse, s.body
         out.append(s)
     if not pattern:
+        out = _positive_guard(out)
         out = _sentinel_search(out)
         out = _shared_tail_return(out)
         if tail:
